@@ -86,10 +86,35 @@ NOT_APPLICABLE = []  # filled automatically for properties without a check (reas
 PENDING_REASON = "check not built yet in this session; design in DESIGN.md section 3 - not claimed until the monitor exists and is silent on the unchanged tree"
 
 
+# additions of later rounds: (appended to the technique, appended to the level text)
+EXTRA = {
+    "C01": ("; one long-lived Emulator re-fetching an address in line after its bytes changed; the same encodings decoded in two processes in opposite orders",
+            " Also: in-line re-fetch on a long-lived Emulator after the bytes changed, and same-mnemonic forms decoded in opposite orders in two processes (outcomes compared across processes)."),
+    "C03": ("; same-mnemonic forms back to back in both orders in one process; half of the cases followed by a hostile twin of the same opcode",
+            " Same-mnemonic opcode forms are executed back to back under every prefix in ascending and descending order; half of all cases are followed by the same opcode with another selector (lookahead must not leak)."),
+    "C04": ("", " CMPP (m),r3 with a memory value above 20 bits and POPU X/Y of such a value are judged per README (24-bit compare; 20-bit register)."),
+    "C06": ("; I = 0 shard and counts up to 0xFFFF", " Every counted opcode is also run with I = 0 and with counts 0x8001/0xFFFF."),
+    "C07": ("; in-line predecessor executions; CPUStepper input-purity and same-inputs-twice monitors",
+            " A NOP one byte below falls through to the case's address while other bytes sit there, then the case runs in line; every CPUStepper.step must leave its inputs alone and repeat its result."),
+    "C11": ("; Python configuration histories; mirror aliases of write-protected cells",
+            " Python memory objects are also reconfigured before use (keyboard handler on/off, scratch window, card in/out); mirror aliases of read-only cells are probed."),
+    "C12": ("; RETI retirement judged against the sources enabled and pending at entry", " RETI must not clear a status bit that was masked or not pending when the interrupt was taken."),
+    "C13": ("; host re-arm (reset at the current cycle) at every step across main loop and handler with bounded-progress oracle",
+            " The host re-arms the timers (and optionally restarts the program) at every step of a window covering main loop and handler: the main timer must keep interrupting."),
+    "C14": ("; machine-level key-interrupt clause on both complete machines", " The key-interrupt clause is also monitored on PCE500Emulator and CoreRuntime runs (where the decision is actually taken)."),
+    "C15": ("; start-line rotation relation on the Rust pixel map", " The Rust pixel map under start line s must be its own s=0 map rotated by s lines."),
+    "C16": ("; reach counter for snapshot points inside software-interrupt handlers", " Snapshot points inside a software-interrupt handler are a required monitor (zero = inconclusive)."),
+    "C17": ("; behavioural probes of the internal-memory window extent and of the PRE slot of [lmn] forms", " Internal window extent (first/last offset, block wrap) and the PRE slot used by MV [lmn],(n) forms are probed on both cores."),
+    "C18": ("; host future emitting inside block_on", " The disturbing host future emits a sentinel event that no driver may return."),
+}
+
+
 def main():
     checks = []
     for pid, (cat, tech, text, note, ref) in sorted(CHECKS.items()):
         c = pid.lower()
+        tech += EXTRA.get(pid, ("", ""))[0]
+        text += EXTRA.get(pid, ("", ""))[1]
         checks.append({
             "property_id": pid,
             "quick_cmd": f"/venv/bin/python -m vt.run {c} --tier quick",
